@@ -320,6 +320,17 @@ fn gen_check(rep: &Report, ck: &str, c: &GenCase, exhaustive_k: bool) -> CheckRe
 }
 
 pub fn run(ctx: &Ctx, rep: &Report) -> Meta {
+    // the same checks with all workers released from one barrier in a cold process (shared state under contention)
+    {
+        let cases = [2usize, 20, 40, 70, 33, 65, 100, 17].iter().map(|&n| GenCase { n, a: ApiSel::Plain, b: ApiSel::None, ks: vec![1000, 30000, 65000] }).collect::<Vec<_>>();
+        let r = contend("contention", ctx.workers.max(4), ctx.tier.pick(2, 6), |t, round| {
+            let c = &cases[(t * 7 + round * 3) % cases.len()];
+            gen_check(rep, "contention", c, false)
+        });
+        if let Err(f) = r {
+            rep.add_violation(f);
+        }
+    }
     run_cases(ctx, rep, "cross-verifiers", ctx.tier.pick(160, 1500), 100, strat, |c| check(rep, "cross-verifiers", c));
     // exhaustive prefixes for n <= 40 over the api_ids the library itself uses
     let mut ex = vec![];
